@@ -550,6 +550,10 @@ def layout_variant(name, vmap, mask):
 # running
 # ------------------------------------------------------------------------------------------------------------
 
+class _IndexOutOfRange(Exception):
+    pass
+
+
 class _Scene:
     def __init__(self, case, g, M, voxel_map=None, mask=None):
         from raysect.optical import World, AffineMatrix3D
@@ -583,7 +587,11 @@ class _Scene:
         ray = Ray(origin=Point3D(float(ow[0]), float(ow[1]), float(ow[2])),
                   direction=Vector3D(float(dw[0]), float(dw[1]), float(dw[2])),
                   min_wavelength=500.0, max_wavelength=501.0, bins=int(self.rt.bins))
-        return np.array(ray.trace(self.world).samples, dtype=float)
+        try:
+            return np.array(ray.trace(self.world).samples, dtype=float)
+        except IndexError as e:
+            # boundscheck is on in the integrators: a sample whose cell index leaves the grid / the spectral array
+            raise _IndexOutOfRange(str(e))
 
 
 def _check_pipelines(ctx, A, rays, geom):
@@ -710,6 +718,15 @@ def _interval_check(ctx, monitor, key, what, got, lo, hi, tol, **detail):
 
 
 def run_case(case, ctx):
+    try:
+        _run_case(case, ctx)
+    except _IndexOutOfRange as e:
+        ctx.viol("%s:integrator-index-out-of-range" % _geom_name(case["grid"]),
+                 "IndexError inside the ray-transfer integrator while tracing an in-domain ray: a sample was assigned a cell / "
+                 "source index outside the grid or the spectral array (%s)" % str(e)[:120])
+
+
+def _run_case(case, ctx):
     gd = case["grid"]
     g = G.make_grid(gd)
     geom = _geom_name(gd)
